@@ -363,6 +363,39 @@ fn main() {
             });
         }
     }
+    // a hand-written matcher that reports why it rejects, in front of / between / behind patterns
+    // that accept: what an earlier pattern reported never influences a later pattern's decision
+    for masks in all_mask_lists(2) {
+        for at in 0..=masks.len() {
+            for partial in [false, true] {
+                let mut list = masks.clone();
+                list.insert(at, MASK_REPORTING_MATCHER);
+                let clauses = list
+                    .iter()
+                    .enumerate()
+                    .map(|(pi, mask)| ClauseSpec::Single {
+                        m: M::Both,
+                        entry: Entry::EachCall,
+                        pat: PatSpec {
+                            mask: *mask,
+                            segs: vec![Seg {
+                                resp: Resp::Ret(1000 + pi as u32),
+                                quant: Quant::Open,
+                            }],
+                        },
+                    })
+                    .collect();
+                cases.push(Case {
+                    label: format!("reporting-matcher/{list:?}/{}", if partial { "partial" } else { "strict" }),
+                    config: Config { partial, clauses },
+                    histories: HistGen::All {
+                        alphabet: vec![Call::new(M::Both, 0), Call::new(M::Both, 1), Call::new(M::Both, 2)],
+                        depth: 2,
+                    },
+                });
+            }
+        }
+    }
     // every tuple arity: n patterns of one method composed as one real n-tuple (vh::spec::compose);
     // for every k the k-th is the first that accepts
     for total in 2..=16usize {
